@@ -198,6 +198,20 @@ class Tr:
                 if bop:
                     return "(%s %s %s)" % (a, bop, b), 1
             self.fail("unsupported operator: " + src, e)
+        if isinstance(e, ast.BoolOp) and isinstance(e.op, ast.Or):
+            # python `a or b` on numbers: the first truthy operand, else the last
+            parts = [self.num(v) for v in e.values]
+            if any(d != 1 for _, d in parts):
+                self.fail("fraction under `or`", e)
+            acc = parts[-1][0]
+            for n, _ in reversed(parts[:-1]):
+                acc = "(if (decide (%s ≠ 0)) then %s else %s)" % (n, n, acc)
+            return acc, 1
+        if isinstance(e, ast.Call) and isinstance(e.func, ast.Name) and e.func.id in ("min", "max") and len(e.args) == 2 and not e.keywords:
+            (a, da), (b, db) = self.num(e.args[0]), self.num(e.args[1])
+            if da != 1 or db != 1:
+                self.fail("fraction under min/max", e)
+            return "(%s %s %s)" % (e.func.id, a, b), 1
         if isinstance(e, ast.IfExp):
             c = self.boolean(e.test)
             a, da = self.num(e.body)
